@@ -437,9 +437,21 @@ def _frexp(ctx):
     bias, nmb, S, one = (127, 23, "s32", "(u32)1") if W == 32 else (1023, 52, "s64", "(u64)1")
     emax = 2 * bias + 1
     ens = []
+    # case 0: zero and normal lanes (the domain the generic kernel handles).  case 1: every lane value -- what the property states; the
+    # clauses for the remaining classes are the ones the C library fixes: NaN stays NaN, an infinity is returned unchanged, a subnormal
+    # gives a mantissa in [0.5, 1) (known finding: the generic kernel ignores these classes)
+    ctx.variants = 2
+    full = (ctx.variant or 0) == 1
     for i in range(ctx.n):
         xi, xp = x.lane(i), x.lane_pre(i)
         field = lambda v: "((%s >> %d) & %d)" % (v, nmb, emax)
+        if full:
+            mag = "(%s & (u%d)~(%s << %d))" % (R.lane(i), W, one, W - 1)
+            half, onebits = "((u%d)%d << %d)" % (W, bias - 1, nmb), "((u%d)%d << %d)" % (W, bias, nmb)
+            ens.append("(!%s || %s)" % (ctx.spec("isnan", xi), ctx.spec("isnan", R.lane(i))))
+            ens.append("(!(%s == %d && !%s) || %s == %s)" % (field(xi), emax, ctx.spec("isnan", xi), R.lane(i), xi))
+            ens.append("(!(%s == 0 && !%s) || (%s >= %s && %s < %s))" % (field(xi), ctx.spec("iszero", xi), mag, half, mag, onebits))
+            continue
         ctx.requires.append("(%s || (%s >= 1 && %s <= %d))" % (ctx.spec("iszero", xp), field(xp), field(xp), emax - 1))
         keep = "(u%d)~((u%d)%d << %d)" % (W, W, emax, nmb)
         m = "((%s & %s) | ((u%d)%d << %d))" % (xi, keep, W, bias - 1, nmb)
